@@ -243,6 +243,39 @@ pub fn run(ctx: &mut Ctx) -> (&'static str, String, bool) {
             }
         }
     }
+    // ---- the public comparison itself: Packet::maybe_verify_version on every version and every other kind -------
+    {
+        use crate::corpus::{real_decode, Dec};
+        for v in 0u16..=255 {
+            let v = v as u8;
+            let Dec::Packet(pk, _) = real_decode(&ver_frame(true, 3, v), true) else { continue };
+            p.evaluations += 1;
+            p.distinct(&("maybe_verify_version", v));
+            let got = crate::ctx::guarded(|| pk.maybe_verify_version().map_err(|e| format!("{:?}", e)));
+            let ok = match &got {
+                Ok(Ok(true)) => v == 9,
+                Ok(Err(e)) => v != 9 && e.contains(&format!("IncompatibleVersion({v})")),
+                _ => false,
+            };
+            if !ok {
+                p.violation("C09/maybe-verify-version", format!("maybe_verify_version() on a VER reporting InSim version {v} returns {:?}", got), json!({"version": v}));
+            }
+        }
+        for lay in c.kinds() {
+            if lay.name == "VER" {
+                continue;
+            }
+            let o = GenOpts { text: TextMode::Ascii, max_list: Some(2), boundary: 6, hostile: false };
+            let Some((_, f)) = c.ref_frame(&mut r, lay, &o, true) else { continue };
+            let Dec::Packet(pk, _) = real_decode(&f, true) else { continue };
+            p.evaluations += 1;
+            p.distinct(&("maybe_verify_version", &lay.name));
+            let got = crate::ctx::guarded(|| pk.maybe_verify_version().map_err(|e| format!("{:?}", e)));
+            if !matches!(got, Ok(Ok(false))) {
+                p.violation(format!("C09/maybe-verify-version/non-version-kind/{}", lay.name), format!("maybe_verify_version() on a {} packet returns {:?}", lay.name, got), json!({"kind": lay.name}));
+            }
+        }
+    }
     // ---- the flag as the builder passes it on: connections made by Builder over loopback sockets -------------
     if ctx.stage.as_deref() != Some("miri") {
         let mut errs = vec![];
